@@ -20,7 +20,7 @@ EXTENDS Naturals, Integers, Sequences, FiniteSets, TLC, Json
 
 CONSTANTS N,          \* ring size (power of two)
           BCAST,      \* TRUE: broadcast flavour, FALSE: mpmc flavour
-          WaitKind,   \* "busy" | "block" (BlockingWait with zero spins)
+          WaitKind,   \* "busy" | "yield" (YieldingWait, zero spins) | "block" (BlockingWait, zero spins)
           Threads,    \* set of thread ids (positive integers); thread 0 runs Final
           Prog,       \* [Threads -> Seq(op)]   op = [op, h, new]
           Final,      \* Seq(op) for thread 0
@@ -93,7 +93,8 @@ RetVal(t, v) == thr' = [thr EXCEPT ![t] = [@ EXCEPT !.pc = "idle", !.l = NoLoc,
 Emit(t, kind, loc, val, ok) ==
   /\ hist' = IF RecordHist THEN Append(hist, <<t, kind, loc, val, ok>>) ELSE hist
 Pre(t) == \* preemption accounting for bounded behaviour generation
-  LET sw == gh.last # -1 /\ gh.last # t /\ PC(gh.last) # "idle" /\ ~(PC(gh.last) \in {"b_c1", "b_c2", "bw_wake"})
+  LET sw == gh.last # -1 /\ gh.last # t /\ PC(gh.last) # "idle"
+            /\ ~(PC(gh.last) \in {"b_c1", "b_c2", "bw_wake", "by_yield", "by_c1", "by_c2"})
   IN IF RecordHist THEN [gh EXCEPT !.npre = IF sw THEN @ + 1 ELSE @, !.last = t] ELSE gh
 Ghost(t) == gh' = Pre(t)
 GhostBad(t, b) == gh' = [Pre(t) EXCEPT !.bad = @ \cup b]
@@ -426,7 +427,8 @@ VCommit(t) == /\ PC(t) = "v_commit"
 (* blocking recv: cursor reload, then Wait::wait on the slot of that count *)
 BCnt(t) == /\ PC(t) = "b_cnt"
            /\ Emit(t, "load", PosLoc(S(t)), mem.pos[S(t)], TRUE)
-           /\ Go(t, IF WaitKind = "busy" THEN "b_c1" ELSE "bw_lock", [L(t) EXCEPT !.seq = mem.pos[S(t)]])
+           /\ Go(t, CASE WaitKind = "busy" -> "b_c1" [] WaitKind = "yield" -> "by_yield" [] OTHER -> "bw_lock",
+                 [L(t) EXCEPT !.seq = mem.pos[S(t)]])
            /\ Ghost(t) /\ UNCHANGED <<mem, hnd>>
 
 Ready(t) == mem.writers = 0 \/ (L(t).cur # INIT /\ (L(t).cur = L(t).seq \/ L(t).cur > L(t).seq))
@@ -441,6 +443,13 @@ Chk2(t, from, yes, no) == /\ PC(t) = from
                           /\ Emit(t, "load", "writers", mem.writers, TRUE)
                           /\ Goto(t, IF Ready(t) THEN yes ELSE no)
                           /\ Ghost(t) /\ UNCHANGED <<mem, hnd>>
+
+\* YieldingWait with zero spins: yield, then one check, for ever
+ByYield(t) == /\ PC(t) = "by_yield"
+              /\ Emit(t, "yield", "-", "*", TRUE)
+              /\ Goto(t, "by_c1") /\ Ghost(t) /\ UNCHANGED <<mem, hnd>>
+ByC1(t) == Chk1(t, "by_c1", "by_c2")
+ByC2(t) == Chk2(t, "by_c2", "r_single", "by_yield")
 
 BC1(t) == Chk1(t, "b_c1", "b_c2")
 BC2(t) == Chk2(t, "b_c2", "r_single", "b_c1")
@@ -570,7 +579,7 @@ Step(t) ==
   \/ NLock(t) \/ NCv(t) \/ NUnlock(t)
   \/ RSig(t) \/ RLa(t) \/ RLaF(t) \/ RPos(t) \/ RSingle(t) \/ RTag(t) \/ RWr(t) \/ RWrF(t) \/ RTag2(t)
   \/ RDchk(t) \/ RPin(t) \/ RRecheck(t) \/ RUnpin(t) \/ RReload(t) \/ RPy(t) \/ RFence(t) \/ RCommit(t)
-  \/ VCommit(t) \/ BCnt(t) \/ BC1(t) \/ BC2(t) \/ BwLock(t) \/ BwC1(t) \/ BwC2(t) \/ BwUnlockRet(t)
+  \/ VCommit(t) \/ BCnt(t) \/ BC1(t) \/ BC2(t) \/ ByYield(t) \/ ByC1(t) \/ ByC2(t) \/ BwLock(t) \/ BwC1(t) \/ BwC2(t) \/ BwUnlockRet(t)
   \/ BwWait(t) \/ BwWake(t) \/ BwUnlock(t) \/ BwC3(t) \/ BwC4(t)
   \/ AGp(t) \/ ARaw(t) \/ AF1(t) \/ ACas(t) \/ AF2(t) \/ AF3(t)
   \/ CsAdd(t) \/ CrAdd(t) \/ DsSub(t) \/ DsF(t) \/ DrSub(t) \/ DrGp(t) \/ DrLp(t) \/ DrSet(t) \/ DrCas(t)
